@@ -61,10 +61,11 @@ KWCONF = [
 ]
 KWCONF_T = KWCONF + [("*#c",), ("amd64", "*", "~x86"), ("-", "amd64")]
 # (indent, separator before each keyword, trailing blanks)
-STYLES = [("", " ", ""), ("", "\t", ""), ("  ", "   ", "  "), ("\t", " \t ", " ")]
+STYLES = [("", " ", ""), ("", "\t", ""), ("  ", "   ", "  "), ("\t", " \t ", " "), ("     ", " ", "")]
 # comment part appended after the trailing blanks; it brings its own leading whitespace
-COMMENTS = ["", "  # why", "\t#x * ^ -"]
+COMMENTS = ["", "  # why", "\t#x * ^ -", " #c"]
 BLANKS = ["", "   ", "# standalone", "  # indented * ^", "\t"]
+NS_, NC_ = len(STYLES), len(COMMENTS)
 
 
 def _line(ki, kws, style, comment):
@@ -86,9 +87,8 @@ def line_shapes(tier):
 def reduced_shapes():
     out = []
     for ki, kws in enumerate(KWCONF):
-        for s in (0, 2):
-            for c in (0, 1):
-                out.append(_line(ki, kws, s, c))
+        for s, c in ((0, 0), (0, 1), (2, 0), (2, 1), (4, 3)):
+            out.append(_line(ki, kws, s, c))
     return out + BLANKS[:1] + BLANKS[2:4]
 
 
@@ -121,9 +121,9 @@ def texts(tier):
             for k, kc_ in enumerate(KWCONF):
                 n += 1
                 ls = (
-                    _line(i, ka, n % 4, (n // 4) % 3),
-                    _line(j + 1, kb, (n // 2) % 4, (n // 5) % 3),
-                    _line(k + 2, kc_, (n // 3) % 4, (n // 7) % 3),
+                    _line(i, ka, n % NS_, (n // 4) % NC_),
+                    _line(j + 1, kb, (n // 2) % NS_, (n // 5) % NC_),
+                    _line(k + 2, kc_, (n // 3) % NS_, (n // 7) % NC_),
                 )
                 for eo in tri_eols:
                     out.append(_join(ls, eo))
